@@ -305,6 +305,16 @@ func (dsc *dataStoreCommand) setDirty() {
 	dsc.ds.data.dirty = true
 }
 
+// records an in-place change of the value or deadline stored under keyName: the key gets a new
+// version, so that a WATCH taken before the change makes EXEC abort, and the database needs saving
+func (dsc *dataStoreCommand) modifiedUnlocked(keyName string) {
+	if sk, exists := dsc.getKeyObjectUnlocked(keyName); exists {
+		dsc.ds.dataObjectNumber++
+		sk.id = dsc.ds.dataObjectNumber
+	}
+	dsc.setDirty()
+}
+
 func (dsc *dataStoreCommand) getKeyObject(keyName string) (sk *storeKey, exists bool) {
 	dsc.lock()
 	defer dsc.unlock()
@@ -385,7 +395,7 @@ func (dsc *dataStoreCommand) getKeySetExpiration(keyName string, expiration time
 		if strBytes != nil {
 			val = string(strBytes)
 			sk.expiresAt = expiration
-			dsc.setDirty()
+			dsc.modifiedUnlocked(keyName)
 		} else {
 			exists = VALUE_WRONG_TYPE
 		}
@@ -796,7 +806,7 @@ func (dsc *dataStoreCommand) del(keyNames []string, reclaim bool) (output respVa
 				dsc.ds.data.remove(keyName)
 			} else {
 				sk.expiresAt = minTime
-				dsc.setDirty()
+				dsc.modifiedUnlocked(keyName)
 			}
 		} else if reclaim {
 			// remove expired now (if it exists)
@@ -948,7 +958,7 @@ func (dsc *dataStoreCommand) expire(keyName string, expiration time.Time, nx, xx
 	}
 
 	sk.expiresAt = expiration
-	dsc.setDirty()
+	dsc.modifiedUnlocked(keyName)
 	output.data = respInt(1)
 	return
 }
@@ -980,7 +990,7 @@ func (dsc *dataStoreCommand) persist(keyName string) (output respValue) {
 		return
 	}
 	sk.expiresAt = maxTime
-	dsc.setDirty()
+	dsc.modifiedUnlocked(keyName)
 	output.data = respInt(1)
 	return
 }
@@ -1164,7 +1174,7 @@ func (dsc *dataStoreCommand) lpushUnlocked(keyName string, list *storeList, elem
 	}
 	list.head = &item
 	list.count++
-	dsc.setDirty()
+	dsc.modifiedUnlocked(keyName)
 }
 
 func (dsc *dataStoreCommand) lpush(keyName string, values [][]byte) (output respValue) {
@@ -1232,7 +1242,7 @@ func (dsc *dataStoreCommand) lpopUnlocked(keyName string, list *storeList, item 
 		dsc.ds.data.remove(keyName)
 	}
 
-	dsc.setDirty()
+	dsc.modifiedUnlocked(keyName)
 }
 
 func (dsc *dataStoreCommand) lpop(keyName string, count int) (values [][]byte, err *respErrorString) {
@@ -1269,7 +1279,7 @@ func (dsc *dataStoreCommand) rpushUnlocked(keyName string, list *storeList, elem
 	}
 	list.tail = &item
 	list.count++
-	dsc.setDirty()
+	dsc.modifiedUnlocked(keyName)
 }
 
 func (dsc *dataStoreCommand) rpush(keyName string, values [][]byte) (output respValue) {
@@ -1337,7 +1347,7 @@ func (dsc *dataStoreCommand) rpopUnlocked(keyName string, list *storeList, item 
 		dsc.ds.data.remove(keyName)
 	}
 
-	dsc.setDirty()
+	dsc.modifiedUnlocked(keyName)
 }
 
 func (dsc *dataStoreCommand) rpop(keyName string, count int) (values [][]byte, err *respErrorString) {
@@ -1473,6 +1483,7 @@ func (dsc *dataStoreCommand) linsert(keyName string, before bool, pivot, element
 	} else {
 		dsc.linsertAfterUnlocked(list, pivotItem, []byte(element))
 	}
+	dsc.modifiedUnlocked(keyName)
 
 	output.data = respInt(list.count)
 	return
@@ -1721,7 +1732,7 @@ func (dsc *dataStoreCommand) removeUnlocked(keyName string, list *storeList, ite
 	item.next = nil
 	item.prev = nil
 
-	dsc.setDirty()
+	dsc.modifiedUnlocked(keyName)
 }
 
 func (dsc *dataStoreCommand) lremove(keyName string, element string, count int) (removed int, err *respErrorString) {
@@ -1818,7 +1829,7 @@ func (dsc *dataStoreCommand) lset(keyName string, element string, count int) (ou
 	}
 
 	item.element = []byte(element)
-	dsc.setDirty()
+	dsc.modifiedUnlocked(keyName)
 	output.data = rstrOK
 	return
 }
@@ -1983,7 +1994,7 @@ func (dsc *dataStoreCommand) setHashTableWorker(keyName string, fieldNames, valu
 			added++
 		}
 		m.store(fieldName, values[idx])
-		dsc.setDirty()
+		dsc.modifiedUnlocked(keyName)
 	}
 	return
 }
@@ -2008,7 +2019,7 @@ func (dsc *dataStoreCommand) deleteHashTableFields(keyName string, fieldNames []
 		for _, fieldName := range fieldNames {
 			if m.remove(fieldName) {
 				removed++
-				dsc.setDirty()
+				dsc.modifiedUnlocked(keyName)
 
 				if m.count == 0 {
 					dsc.ds.data.remove(keyName)
@@ -2064,7 +2075,7 @@ func (dsc *dataStoreCommand) fieldAddInt(keyName, fieldName string, delta int64)
 		ve = VALUE_DOESNT_EXIST
 	}
 	m.store(fieldName, fmt.Sprintf("%d", value))
-	dsc.setDirty()
+	dsc.modifiedUnlocked(keyName)
 
 	return
 }
@@ -2112,14 +2123,13 @@ func (dsc *dataStoreCommand) fieldAddFloat(keyName, fieldName string, delta floa
 			ve = VALUE_OVERFLOW
 			return
 		}
-		dsc.setDirty()
 		ve = VALUE_EXISTS
 	} else {
 		ve = VALUE_DOESNT_EXIST
 	}
 
 	m.store(fieldName, strconv.FormatFloat(value, 'f', -1, 64))
-	dsc.setDirty()
+	dsc.modifiedUnlocked(keyName)
 	return
 }
 
@@ -2403,7 +2413,7 @@ func (dsc *dataStoreCommand) setAddWorkerUnlocked(keyName string, memberNames []
 			added++
 		}
 		m.store(memberName, struct{}{})
-		dsc.setDirty()
+		dsc.modifiedUnlocked(keyName)
 	}
 	return
 }
@@ -2428,7 +2438,7 @@ func (dsc *dataStoreCommand) deleteSetMembers(keyName string, memberNames []stri
 		for _, memberName := range memberNames {
 			if m.remove(memberName) {
 				removed++
-				dsc.setDirty()
+				dsc.modifiedUnlocked(keyName)
 
 				if m.count == 0 {
 					dsc.ds.data.remove(keyName)
@@ -2883,7 +2893,7 @@ func (dsc *dataStoreCommand) setMove(source, destination, memberName string) (ou
 	}
 
 	ss.remove(memberName)
-	dsc.setDirty()
+	dsc.modifiedUnlocked(source)
 	if ss.count == 0 {
 		dsc.ds.data.remove(source)
 	}
@@ -2912,7 +2922,7 @@ func (dsc *dataStoreCommand) setRemove(keyName string, members []string) (output
 	for _, member := range members {
 		if m.remove(member) {
 			removals++
-			dsc.setDirty()
+			dsc.modifiedUnlocked(keyName)
 
 			if m.count == 0 {
 				dsc.ds.data.remove(keyName)
